@@ -19,12 +19,17 @@ package main
 
 import (
 	"context"
+	"encoding/json"
 	"errors"
 	"fmt"
+	"net/http"
+	"net/http/httptest"
 	"reflect"
 	"strings"
+	"sync"
 	"time"
 
+	apifu "github.com/ccbrown/api-fu"
 	"github.com/ccbrown/api-fu/graphql"
 	"github.com/ccbrown/api-fu/graphql/executor"
 
@@ -208,6 +213,9 @@ type builder struct {
 	events  *[]sexp.Node
 	proms   *[]*promise
 	counter *int // the state the resolvers share: read, then incremented, by every side effect
+	api     bool // resolve asynchronous fields with apifu.Go instead of a harness promise
+	mu      *sync.Mutex
+	root    *val // api mode: the object value of the root fields (apifu passes no InitialValue)
 }
 
 func (b *builder) gqlType(t *typ) graphql.Type {
@@ -241,6 +249,9 @@ func (b *builder) objType(name string, t *typ) *graphql.ObjectType {
 		o.Fields[ft.name] = &graphql.FieldDefinition{
 			Type: b.gqlType(ft.t),
 			Resolve: func(ctx graphql.FieldContext) (interface{}, error) {
+				if b.api {
+					return b.resolveAPI(ctx, t, i)
+				}
 				fv := ctx.Object.(*val).fields[i]
 				*b.events = append(*b.events, sexp.T("start", pathSexp(fv.path), sexp.Int(*b.counter)))
 				*b.counter++
@@ -257,6 +268,36 @@ func (b *builder) objType(name string, t *typ) *graphql.ObjectType {
 		}
 	}
 	return o
+}
+
+// resolveAPI is the resolver of the apifu route: asynchronous fields run in an apifu.Go goroutine
+// whose body logs the "fulfil" side effect (the asynchronous resolver finishing) before it returns.
+func (b *builder) resolveAPI(ctx graphql.FieldContext, t *typ, i int) (interface{}, error) {
+	obj, _ := ctx.Object.(*val)
+	if obj == nil || obj.t != t {
+		obj = b.root
+	}
+	fv := obj.fields[i]
+	b.mu.Lock()
+	*b.events = append(*b.events, sexp.T("start", pathSexp(fv.path), sexp.Int(*b.counter)))
+	*b.counter++
+	b.mu.Unlock()
+	answer := func() (interface{}, error) {
+		if fv.err {
+			return nil, errors.New("resolver failed")
+		}
+		return fv.v.goValue(), nil
+	}
+	if fv.tag >= 0 {
+		return apifu.Go(ctx.Context, func() (interface{}, error) {
+			b.mu.Lock()
+			*b.events = append(*b.events, sexp.T("fulfil", pathSexp(fv.path), sexp.Int(*b.counter)))
+			*b.counter++
+			b.mu.Unlock()
+			return answer()
+		}), nil
+	}
+	return answer()
 }
 
 func selectionText(ft *ftype, sb *strings.Builder) {
@@ -495,6 +536,109 @@ func run(root *val, mutation bool, ranks []int, opts docOpts) observation {
 	obs.proms = append([]*promise(nil), proms...)
 	obs.events = append([]sexp.Node(nil), events...)
 	return obs
+}
+
+// runAPI executes the mutation through apifu.API.ServeGraphQL: root fields registered with
+// Config.AddMutation, asynchronous fields resolved by apifu.Go goroutines, the request's own idle
+// handler.  The order in which goroutines finish is not under the harness's control.
+func runAPI(root *val, opts docOpts) sexp.Node {
+	var events []sexp.Node
+	var proms []*promise
+	counter := 0
+	var mu sync.Mutex
+	b := &builder{events: &events, proms: &proms, counter: &counter, api: true, mu: &mu, root: root}
+	resetGql(root.t)
+	var cfg apifu.Config
+	cfg.AddQueryField("z", &graphql.FieldDefinition{Type: graphql.IntType, Resolve: func(graphql.FieldContext) (interface{}, error) { return 0, nil }})
+	mt := b.objType("MutationProbe", root.t)
+	for name, def := range mt.Fields {
+		cfg.AddMutation(name, def)
+	}
+	api, err := apifu.NewAPI(&cfg)
+	if err != nil {
+		panic(fmt.Sprintf("NewAPI: %v", err))
+	}
+	doc := documentText(root.t, true, "Mutation", opts.shape, opts.dups)
+	type outT struct {
+		status string
+		body   []byte
+	}
+	done := make(chan outT, 1)
+	go func() {
+		defer func() {
+			if e := recover(); e != nil {
+				done <- outT{status: "panic"}
+			}
+		}()
+		w := httptest.NewRecorder()
+		r, _ := http.NewRequest("POST", "", strings.NewReader(doc))
+		r.Header.Set("Content-Type", "application/graphql")
+		api.ServeGraphQL(w, r)
+		done <- outT{status: "ok", body: w.Body.Bytes()}
+	}()
+	var o outT
+	select {
+	case o = <-done:
+	case <-time.After(10 * time.Second):
+		o = outT{status: "hang"}
+	}
+	out := []sexp.Node{sexp.T("status", sexp.Sym(o.status))}
+	if o.status == "ok" {
+		out = append(out, sexp.T("data", apiDataSexp(o.body)))
+	}
+	mu.Lock()
+	evs := append([]sexp.Node(nil), events...)
+	mu.Unlock()
+	out = append(out, sexp.T("rounds", sexp.Int(0)), sexp.T("events", evs...))
+	return sexp.T("obs", out...)
+}
+
+// apiDataSexp reads the root keys of "data" in response order with the kind of each value.
+func apiDataSexp(body []byte) sexp.Node {
+	var top struct {
+		Data json.RawMessage `json:"data"`
+	}
+	if json.Unmarshal(body, &top) != nil || len(top.Data) == 0 || string(top.Data) == "null" {
+		return sexp.Sym("null")
+	}
+	dec := json.NewDecoder(strings.NewReader(string(top.Data)))
+	if tok, err := dec.Token(); err != nil || tok != json.Delim('{') {
+		return sexp.Sym("unknown")
+	}
+	var items []sexp.Node
+	for dec.More() {
+		k, _ := dec.Token()
+		var raw json.RawMessage
+		if dec.Decode(&raw) != nil {
+			return sexp.Sym("unknown")
+		}
+		var kind sexp.Node
+		switch {
+		case string(raw) == "null":
+			kind = sexp.Sym("null")
+		case raw[0] == '{':
+			kind = sexp.Sym("obj")
+		case raw[0] == '[':
+			kind = sexp.Sym("list")
+		case raw[0] == '"':
+			kind = sexp.Sym("str")
+		default:
+			var n int64
+			if json.Unmarshal(raw, &n) != nil {
+				return sexp.Sym("unknown")
+			}
+			kind = sexp.T("int", sexp.Int64(n))
+		}
+		items = append(items, sexp.L(sexp.Str(k.(string)), kind))
+	}
+	return sexp.L(items...)
+}
+
+func apiCaseSexp(root *val, opts docOpts) sexp.Node {
+	root.setPaths(nil)
+	o := runAPI(root, opts)
+	return sexp.T("case", sexp.T("mode", sexp.Sym("mutation")), sexp.T("plan", sexp.L(root.selSexp()...)),
+		sexp.T("ranks", sexp.L()), sexp.T("idle", sexp.Bool(true)), sexp.T("feat", sexp.Sym("apifu-go")), o)
 }
 
 // kindSexp abstracts a root value to what the model tracks: null / (int z) / list / obj.
@@ -995,6 +1139,23 @@ func main() {
 		for i := 0; i < n; i++ {
 			h.Case(func(r *rng.R) sexp.Node {
 				return randomCase(r, !r.Chance(1, 6), r.Range(2, 5))
+			})
+		}
+		// 4. mutations through apifu.API.ServeGraphQL with apifu.Go under the root fields
+		na := 1500
+		if h.Thorough() {
+			na = 30000
+		}
+		for i := 0; i < na; i++ {
+			h.Case(func(r *rng.R) sexp.Node {
+				failDen := 14
+				if r.Chance(1, 2) {
+					failDen = 1000
+				}
+				root := randomRoot(r, r.Range(2, 4), r.Range(1, 3), r.Range(3, 10), failDen)
+				density := r.Range(1, 4)
+				assignTags(root, func(int) bool { return r.Intn(4) < density })
+				return apiCaseSexp(root, docOpts{})
 			})
 		}
 	})
